@@ -361,12 +361,33 @@ Definition clear_payload (p : payload) : payload :=
   | _, _, _ => p
   end.
 
+(* cell data of a curve whose cells were rebuilt: the values are re-read with the new number of cells (NumericData.format_length
+   pads with the no-data value when there are more cells than stored values) *)
+Definition pad_values (nd : option Z) (n : nat) (v : list (option Z)) : list (option Z) :=
+  v ++ repeat nd (n - length v).
+
+Definition clear_child (ncells_new : nat) (c : tree) : tree :=
+  match c with
+  | T n ch =>
+      match knd (pl n), asc (pl n), vals (pl n) with
+      | KData, ACell, Some v => T {| nuid := nuid n; pl := set_payload (pl n) (verts (pl n)) (cells (pl n)) (Some (pad_values (ndv (pl n)) ncells_new v));
+                                    npgs := npgs n |} ch
+      | _, _, _ => c
+      end
+  end.
+
 (* the entities of the source subtree that went through copy_to_parent(..., clear_cache=True):
    an object root, or the objects below a group (Group.copy does not clear the group itself) *)
 Fixpoint clear_src (t : tree) : tree :=
   match t with
-  | T n ch => T {| nuid := nuid n; pl := clear_payload (pl n); npgs := npgs n |}
-                (match knd (pl n) with KGroup => map clear_src ch | _ => ch end)
+  | T n ch =>
+      let p' := clear_payload (pl n) in
+      T {| nuid := nuid n; pl := p'; npgs := npgs n |}
+        (match knd (pl n), geok (pl n) with
+         | KGroup, _ => map clear_src ch
+         | KObject, GCurve => map (clear_child (length (cells p'))) ch
+         | _, _ => ch
+         end)
   end.
 
 Fixpoint replace_tree (u : uid) (x : tree) (t : tree) : tree :=
